@@ -6,5 +6,8 @@ CONSTANTS
   Vias <- ViasPair
   MaxInject = 1
   Spoof = TRUE
+  Confs <- ConfsSw
+  Stores <- StoresNone
+  Ancs <- AncsTs
   RestoreAtTop = TRUE
 INVARIANTS ReplyIffValid ExactlyOne ToSender ReplyHeader NeverAnswersReply BoundedTraffic HistoryIndependence
